@@ -6,6 +6,7 @@ that order initial states, actions and successors) is enumerated by the stateles
 execution is compared with the exact optimum."""
 import warnings
 from fractions import Fraction as F
+from itertools import product
 
 import numpy as np
 
@@ -48,12 +49,29 @@ def spec_items(tier):
         yield from build.enum_mdps(2, AS, 1, [F(-1), F(1)], [(), (1,)], [build.INIT_MENU[2][0], build.INIT_MENU[2][2]], [F(9, 10)])
         yield from build.enum_mdps(2, AS, 1, [F(-1), F(0)], [(), (1,)], [build.INIT_MENU[2][0], build.INIT_MENU[2][2]], [F(1)])
         yield from build.enum_mdps(2, AS, 1, [F(0), F(1)], [()], [build.INIT_MENU[2][0]], [F(9, 10)])      # sparse rewards: V* = 0 at non-absorbing states
+        yield from sparse3(full=False)
         yield from build.chain_mdps(3, [F(1)], [F(-1), F(0)])
     else:
         yield from build.enum_mdps(2, [('a',), ('b',), ('a', 'b')], 1, [F(-1), F(0), F(1)], [(), (1,), (0,)], build.INIT_MENU[2][:3:2],
                                    [F(9, 10), F(1)])
         yield from build.chain_mdps(3, [F(9, 10), F(1)], [F(-1), F(0)])
         yield from build.enum_mdps(3, AS, 1, [F(-1)], [(2,)], [build.INIT_MENU[3][0], build.INIT_MENU[3][1]], [F(1)])
+        yield from sparse3(full=True)
+
+
+def sparse3(full):
+    """n = 3, discounted, rewards {0,1}: state 0 has two actions, states 1 and 2 one (Dirac outcomes unless full):
+    zero-value non-absorbing states next to rewarding ones, revised in different orders."""
+    one = F(1)
+    d3 = build.dist_menu(3, 1)
+    dir3 = [d for d in d3 if len(d) == 1]
+    per0 = [(d, r) for d in d3 for r in (F(0), F(1))]
+    per12 = [(d, r) for d in (d3 if full else dir3) for r in (F(0), F(1))]
+    for (da, ra), (db, rb) in product(per0, repeat=2):
+        for (d1, r1) in per12:
+            for (d2, r2) in per12:
+                T = ((('a', da, ra), ('b', db, rb)), (('a', d1, r1),), (('a', d2, r2),))
+                yield ('mdp', 3, T, (), ((0, one),), F(9, 10))
 
 
 def items(tier, seed):
